@@ -415,11 +415,11 @@ func dlMessages(seed int64, n int) {
 	}
 	// first the long ones, in fixed order: DL NAS TRANSPORT whose whole length crosses 255 / 256 octets, several keystream blocks,
 	// and (last) more than 4096 octets
-	for _, ln := range []int{249, 250, 256, 600, 1200, 4100} {
+	for _, ln := range []int{249, 250, 256, 600, 1200, 4100, 8300} {
 		pl := ev.Bytes(r, ln)
 		outl = append(outl, ev.Ints(cat([]byte{0x7e, 0x00, 0x68, 0x01, byte(len(pl) >> 8), byte(len(pl))}, pl, []byte{0x12, byte(1 + r.Intn(15))})))
 	}
-	for len(outl) < n+6 {
+	for len(outl) < n+7 {
 		var m []byte
 		switch r.Intn(8) {
 		case 0: // AUTHENTICATION REQUEST
